@@ -109,8 +109,17 @@ func vfPattern(p, n int) []byte {
 			b[i] = byte(i*31 + 7)
 		case 1:
 			b[i] = byte(0xff - i%3)
-		default:
+		case 2:
 			b[i] = byte((i*i)>>3 ^ i ^ 0x5a)
+		case 3:
+			b[i] = 0
+		case 4:
+			b[i] = 0xff
+		default: // a fixed pseudo-random stream per pattern number
+			x := uint32(i+1)*2654435761 + uint32(p)*40503
+			x ^= x >> 15
+			x *= 2246822519
+			b[i] = byte(x >> 13)
 		}
 	}
 	return b
@@ -131,7 +140,7 @@ func (b vfYieldBlock) Encrypt(dst, src []byte) { b.Block.Encrypt(dst, src); vrt.
 func (b vfYieldBlock) Decrypt(dst, src []byte) { b.Block.Decrypt(dst, src); vrt.Yield() }
 
 func vfC08(c *hx.Ctx) {
-	c.Rule("every length 0..1500 x {in place, separate buffers} x 3 content patterns x 2 keys for each of 13 BlockCrypt ciphers, plus AES-128/256-GCM over every plaintext length that fits a 1500-byte packet; " +
+	c.Rule("every length 0..1500 x {in place, separate buffers} x 3 (thorough 8) content patterns x 2 (thorough 5) keys for each of 13 BlockCrypt ciphers, plus AES-128/256-GCM over every plaintext length that fits a 1500-byte packet; " +
 		"a case is (cipher, key, pattern, length, aliasing); non-trivial = length > 0")
 	c.Assume("contents and keys are fixed patterns; lengths, aliasing modes and the control-flow space of the unrolled code (group count, 0..7 leftover blocks, tail bytes) are complete")
 	ciphers := vfCiphers()
@@ -143,7 +152,7 @@ func vfC08(c *hx.Ctx) {
 			continue
 		}
 		start := time.Now()
-		u := &hx.Unit{Name: cf.name, Kind: "enum", Exhaustive: true, Params: map[string]any{"lengths": "0..1500", "aliasing": []string{"dst==src", "dst!=src"}, "patterns": 3, "keys": 2}}
+		u := &hx.Unit{Name: cf.name, Kind: "enum", Exhaustive: true, Params: map[string]any{"lengths": "0..1500", "aliasing": []string{"dst==src", "dst!=src"}, "patterns": hx.Pick(c, 3, 8), "keys": hx.Pick(c, 2, 5)}}
 		viol := func(sig, msg string) {
 			for _, v := range u.Violations {
 				if v.Signature == sig {
@@ -153,7 +162,7 @@ func vfC08(c *hx.Ctx) {
 			}
 			u.Violations = append(u.Violations, c.NewViolation(cf.name, u.Params, sig, msg, ""))
 		}
-		for k := 0; k < 2; k++ {
+		for k := 0; k < hx.Pick(c, 2, 5); k++ {
 			key := vfKey(k, cf.keyLen)
 			bc, err := cf.mk(key)
 			if err != nil {
@@ -161,7 +170,7 @@ func vfC08(c *hx.Ctx) {
 				continue
 			}
 			ref := cf.ref(key)
-			for p := 0; p < 3; p++ {
+			for p := 0; p < hx.Pick(c, 3, 8); p++ {
 				for n := 0; n <= 1500; n++ {
 					pt := vfPattern(p, n)
 					want := make([]byte, n)
@@ -298,10 +307,11 @@ func vfC08(c *hx.Ctx) {
 	// (and, in the HB-race build, no race on the shared feedback buffers)
 	c.ByUnit = true
 	for _, cf := range ciphers {
-		if cf.name != "aes-128" && cf.name != "blowfish" && cf.name != "salsa20" && cf.name != "xor" {
+		if c.Quick() && cf.name != "aes-128" && cf.name != "blowfish" && cf.name != "salsa20" && cf.name != "xor" && cf.name != "sm4" && cf.name != "3des" {
 			continue
 		}
 		cf := cf
+		nthreads := hx.Pick(c, 3, 4)
 		run := func(e *explore.Exec) explore.Verdict {
 			var fail string
 			out := hx.RunVrt(e, vrt.Config{PreemptCost: 1, TimerEarlyCost: -1}, func() {
@@ -314,7 +324,7 @@ func vfC08(c *hx.Ctx) {
 				}
 				ref := cf.ref(key)
 				var wg vrt.WaitGroup
-				for t := 0; t < 3; t++ {
+				for t := 0; t < nthreads; t++ {
 					t := t
 					wg.Add(1)
 					vrt.Go(fmt.Sprintf("caller%d", t), func() {
@@ -348,8 +358,8 @@ func vfC08(c *hx.Ctx) {
 			}
 			return v
 		}
-		c.UnitBudget = 10 * time.Second
-		c.Explore("concurrent/"+cf.name, map[string]any{"threads": 3, "calls_per_thread": 2}, hx.Pick(c, 1, 2), run)
+		c.UnitBudget = hx.Pick(c, 10*time.Second, 120*time.Second)
+		c.Explore("concurrent/"+cf.name, map[string]any{"threads": nthreads, "calls_per_thread": 2}, hx.Pick(c, 2, 3), run)
 	}
 }
 
